@@ -59,6 +59,15 @@ def builder_cases():
                     % (n, " ".join("b.push(%d);" % (7 * i + 1) for i in range(pushes))))
             exp = str([7 * i + 1 for i in range(n)]) if pushes == n else "PANIC"
             out.append((body, exp, {"m": "ArrayBuild", "mac": "ArrayBuilder", "n": n, "pushes": pushes}))
+        # over-filling push whose panic is caught: the builder must be left as it was (still full, same contents, buildable)
+        vals = [7 * i + 1 for i in range(n)]
+        body = ("let mut b = konst::array::ArrayBuilder::<u32, %d>::new(); %s "
+                "let r = std::panic::catch_unwind(std::panic::AssertUnwindSafe(|| b.push(99))); "
+                "let r2 = std::panic::catch_unwind(std::panic::AssertUnwindSafe(|| b.push(98))); "
+                "format!(\"{} {} {} {} {:?} {:?}\", r.is_err(), r2.is_err(), b.len(), b.is_full(), b.as_slice().to_vec(), b.build())"
+                % (n, " ".join("b.push(%d);" % v for v in vals)))
+        out.append((body, "true true %d true %s %s" % (n, str(vals), str(vals)),
+                    {"m": "ArrayBuild", "mac": "ArrayBuilder(over-push caught)", "n": n}))
         body = ("const fn f() -> [u32; %d] { let mut b = konst::array::ArrayBuilder::new(); let mut i = 0u32; while (i as usize) < %d { b.push(i * 3); i += 1; } b.build() } "
                 "const A: [u32; %d] = f(); format!(\"{:?}\", A)" % (n, n, n))
         out.append((body, str([3 * i for i in range(n)]), {"m": "ArrayBuild", "mac": "ArrayBuilder(const fn)", "n": n}))
